@@ -609,12 +609,27 @@ type boundedRun struct {
 // runBounded executes /verif/bounded/<id>/*.go (in-package tests injected with -overlay). Headers:
 //
 //	// bounded-pkg: memmetrics      // bounded-func: <function standing in for>      // bounded-bound: <stated bound>
+//	// bounded-props: <further properties whose proofs use the assumed contract>
 func (e *Engine) runBounded(id, repo, verif, tier string) []boundedRun {
-	files, _ := filepath.Glob(filepath.Join(verif, "bounded", id, "*.go"))
+	files, _ := filepath.Glob(filepath.Join(verif, "bounded", "*", "*.go"))
+	sort.Strings(files)
 	var out []boundedRun
 	for _, f := range files {
 		src, err := os.ReadFile(f)
 		if err != nil {
+			continue
+		}
+		// a stand-in belongs to the property of its directory and to every property named in `// bounded-props:`
+		// (the properties whose proofs use the assumed contract it stands in for)
+		mine := filepath.Base(filepath.Dir(f)) == id
+		if m := regexp.MustCompile(`(?m)^// bounded-props:\s*(.+)$`).FindStringSubmatch(string(src)); m != nil {
+			for _, q := range strings.Fields(m[1]) {
+				if q == id {
+					mine = true
+				}
+			}
+		}
+		if !mine {
 			continue
 		}
 		get := func(key string) string {
